@@ -1,6 +1,6 @@
 """C06 - reported uncertainties and p-values are coherent with the evaluations (DESIGN 4/C06)
 
-Five exhaustively enumerated families, every case additionally under EVERY permutation of the
+Four exhaustively enumerated families, every case additionally under EVERY permutation of the
 model order:
 
   V  variance extraction: Result(variances=<scalar|vector|matrix|3-stack>, with/without the two
@@ -823,8 +823,10 @@ def shards(tier, seed):
             for shape in sh[ndim]:
                 for ncf in ('fixed', 'boot'):
                     for fill in range(5 if th else (2 if m < 4 else 1)):
-                        out.append({'fam': 'T', 'kind': 'fills', 'shape': list(shape), 'ncf': ncf, 'fill': fill,
-                                    'vcs': vcs, 'types': ['t-test', 'bootstrap']})
+                        # 24 orders of 4 models: one shard per (dof, variance form) group keeps shards small
+                        for part in ([vcs[i:i + 2] for i in range(0, len(vcs), 2)] if (th and m == 4) else [vcs]):
+                            out.append({'fam': 'T', 'kind': 'fills', 'shape': list(shape), 'ncf': ncf, 'fill': fill,
+                                        'vcs': part, 'types': ['t-test', 'bootstrap']})
                 if ndim == 3:
                     for ncf in (('fixed', 'boot') if th else ('boot',)):
                         for mk in range(4 if m == 4 else 1):
